@@ -22,6 +22,17 @@ def c06_1(c: Ctx) -> None:
     c.floor(len(sites), 1, 'process_event call sites (step, inline loop)')
     for u, call in sites:
         held, chain = lock_held_at(c, u, call)
+        if not held and call.args and isinstance(call.func, ast.Attribute):
+            # processing an event nobody on this bus listens to runs no handler: it needs no exclusion.  "Nobody listens" = both registry lookups (its type, '*') are empty,
+            # tested in this function with nothing in between that suspends or registers
+            recv, evx = U(call.func.value), U(call.args[0])
+            l1, l2 = f'{recv}.handlers.get({evx}.event_type)', f"{recv}.handlers.get('*')"
+            gq = c.cfg(u)
+            fq = Facts(lambda a: a in (l1, l2) or a.isidentifier(), cg=c.cg, unit=u, ignore_writes=set(getattr(c.prog, 'memos', {}) or {}))
+            nodes_ = gq.nodes_of(q.stmt_of(call))
+            if nodes_ and all(q.guard_search(gq, n_, f'not {l1} and not {l2}', fq) is None for n_ in nodes_):
+                c.ok(where(u, call), f'`{U(call)[:60]}` runs without the lock only for an event no handler of this bus listens to (no handler runs)')
+                continue
         if held:
             c.ok(where(u, call), f'`{U(call)[:60]}` executes with the global lock held')
         else:
@@ -429,6 +440,13 @@ def c06_6(c: Ctx) -> None:
                        witness=c.path(g.nodes_of(q.stmt_of(call))[0], bad) if bad else [])
     if n_sites == 0:
         c.ok('bubus/service.py', 'the global lock\'s semaphore is released in ReentrantLock.__aexit__ only (never lent out in the middle of a hold)')
+
+
+@ob('C06.7', 'COHERENCE', 'a memo that decides whether an event needs the lock is kept coherent with the handler registry (same obligation as C01.13): a stale "nobody listens" runs an event without the lock although a handler, registered in the meantime, does run for it')
+def c06_7(c: Ctx) -> None:
+    from .c01 import check_memo_coherence
+
+    check_memo_coherence(c)
 
 
 OBLIGATIONS = ob.obs
